@@ -149,9 +149,9 @@ class Stmts:
             outs = []
             for s1, c in self.ev(s.test, st):
                 t = z3.simplify(self.truthy(c, s1))
-                if not z3.is_false(t):
+                if not z3.is_false(t) and not self.plainly_infeasible(s1, t):
                     outs += self.exec_block(s.body, self.narrow(s.test, s1.assume(t), True))
-                if not z3.is_true(t):
+                if not z3.is_true(t) and not self.plainly_infeasible(s1, z3.Not(t)):
                     outs += self.exec_block(s.orelse, self.narrow(s.test, s1.assume(z3.Not(t)), False))
             return outs
         if isinstance(s, ast.Assert):
@@ -391,7 +391,14 @@ class Stmts:
                     src = ast.unparse(node.func)
                     if src.endswith(("Error", "Exception", "Warning")) or src.startswith("warnings."):
                         continue
+                    if src in ("set", "list", "dict"):
+                        allocs = True
+                        keys |= {"llen", "lel", "dhas", "dval", "dsize"}
+                        continue
                     if src.startswith(("logger.", "logging.")) or src in ("isinstance", "len", "int", "str", "max", "min", "f", "_", "enumerate", "zip", "range"):
+                        continue
+                    if isinstance(node.func, ast.Attribute) and node.func.attr == "add" and len(node.args) == 1:
+                        keys |= {"dhas", "dval", "dsize"}  # set.add
                         continue
                     if isinstance(node.func, ast.Attribute) and node.func.attr in ("append", "insert", "pop", "copy"):
                         keys |= {"llen", "lel"}
@@ -513,9 +520,18 @@ class Stmts:
         s.add(z3.Not(goal))
         return s.check() == z3.unsat
 
-    def houdini(self, cands, entry_st: St, make_head, run_body):
-        """Largest subset of `cands` that holds on entry and is preserved (assuming the user invariants and the subset)."""
+    def houdini(self, cands, entry_st: St, make_head, run_body, k=None):
+        """Largest subset of `cands` that holds on entry and is preserved (assuming the user invariants and the subset).
+
+        A loop nested in another loop is executed again for every Houdini round of the outer loop, each time under FEWER
+        assumed outer candidates; a candidate that could not be established for loop k once cannot be established in a
+        later round either, so it is remembered and not tried again (saves one solver timeout per candidate and round)."""
+        if not hasattr(self, "_houdini_bad"):
+            self._houdini_bad = {}
+        known_bad = self._houdini_bad.setdefault(k, set()) if k is not None else set()
+        cands = [c for c in cands if c[0] not in known_bad]
         kept = [c for c in cands if self.quick_valid(entry_st, c[1](entry_st))]
+        known_bad.update(c[0] for c in cands if c not in kept)
         while kept:
             saved = (len(self.vcs), len(self.raised), self.loop_counter, list(self.notes), set(self.assumptions_used))
             try:
@@ -528,6 +544,7 @@ class Stmts:
             bad = [c for c in kept if not all(self.quick_valid(e, c[1](e)) for e in ends)]
             if not bad:
                 break
+            known_bad.update(c[0] for c in bad)
             kept = [c for c in kept if c not in bad]
         return kept
 
@@ -561,6 +578,8 @@ class Stmts:
             ends = []
             for s1, c in self.ev(s.test, hh):
                 t = self.truthy(c, s1)
+                if self.plainly_infeasible(s1, t):
+                    continue
                 for o in self.exec_block(s.body, self.narrow(s.test, s1.assume(t), True)):
                     if o.kind in ("fall", "continue"):
                         ends.append(o.st)
@@ -569,7 +588,7 @@ class Stmts:
         if not hasattr(self, "_auto_inv"):
             self._auto_inv = {}
         self._auto_inv[k] = []
-        self._auto_inv[k] = self.houdini(self.frame_candidates(st, keys), st, make_head, run_body) if keys else []
+        self._auto_inv[k] = self.houdini(self.frame_candidates(st, keys), st, make_head, run_body, k) if keys else []
         self.check_invariants(st, lspec, "entry", k, s.lineno)
         h = make_head(self._auto_inv[k])
         # cover: the loop head is reachable under the invariant
@@ -580,7 +599,10 @@ class Stmts:
             measure0 = as_i(SpecEval(self, h, h.loc, h.entry).value(lspec.decreases).term)
         for s1, c in self.ev(s.test, h):
             t = self.truthy(c, s1)
-            outs.append(Out("fall", self.after_loop(s1.assume(z3.Not(t)), before)))
+            if not self.plainly_infeasible(s1, z3.Not(t)):
+                outs.append(Out("fall", self.after_loop(s1.assume(z3.Not(t)), before)))
+            if self.plainly_infeasible(s1, t):
+                continue
             for o in self.exec_block(s.body, self.narrow(s.test, s1.assume(t), True)):
                 if o.kind in ("fall", "continue"):
                     self.check_invariants(o.st, lspec, "preserve", k, s.lineno)
@@ -754,7 +776,7 @@ class Stmts:
         cands = self.frame_candidates(st, keys) if keys else []
         if len_may_change:
             cands.append(("[auto] loop index stays within the iterated list", lambda ss: as_i(ss.ghosts["it_i"].term) <= self.list_len(ss, live)))
-        self._auto_inv[k] = self.houdini(cands, st, make_head, run_body) if cands else []
+        self._auto_inv[k] = self.houdini(cands, st, make_head, run_body, k) if cands else []
         self.check_invariants(st, lspec, "entry", k, s.lineno)
         h = make_head(self._auto_inv[k])
         if lspec.invariants:
